@@ -64,7 +64,7 @@ CaseJ == [id |-> cs.id, ps |-> PJ(cs.ps),
           dims |-> SetToSeq({ <<t, cs.dims[t][1], cs.dims[t][2], cs.dims[t][3]>> : t \in DOMAIN cs.dims }),
           ops |-> [k \in DOMAIN cs.ops |-> OpJ(cs.ops[k])]]
 EmitBoth == \/ ~done
-            \/ PrintT(<<"SMALL", ToJson([case |-> CaseJ, step |-> i, ps |-> PJ(res.ps), status |-> res.status, amb |-> res.amb])>>)
+            \/ PrintT(<<"SMALL", ToJson([case |-> CaseJ, step |-> nc, ps |-> PJ(res.ps), status |-> res.status, amb |-> res.amb])>>)
 
 \* ---- file scope
 PsOf(x) == [k \in DOMAIN x |-> P(x[k][1], x[k][2], <<x[k][3], x[k][4], x[k][5]>>, <<x[k][6], x[k][7], x[k][8]>>)]
